@@ -75,9 +75,22 @@ impl ValidatorSetExt for Set {
         {
             let signature = match commit_sig {
                 CommitSig::BlockIdFlagCommit {
+                    validator_address,
                     signature: Some(sig),
                     ..
-                } => sig,
+                } => {
+                    // The signed bytes of a vote do not cover the validator address and
+                    // validators are matched with signatures by index, so the address
+                    // has to be checked explicitly.
+                    if *validator_address != validator.address {
+                        bail_verification!(
+                            "commit signature {idx} is from {validator_address}, expected {}",
+                            validator.address
+                        );
+                    }
+
+                    sig
+                }
                 CommitSig::BlockIdFlagCommit { .. } => {
                     bail_verification!("No signature in CommitSig");
                 }
